@@ -13,6 +13,7 @@ import (
 	"dawgsverif/areas/entityarea"
 	"dawgsverif/areas/idsetarea"
 	"dawgsverif/areas/reacharea"
+	"dawgsverif/areas/travarea"
 )
 
 type cmd func(args []string)
@@ -22,6 +23,7 @@ var areas = map[string]map[string]cmd{
 	"entity":  {"replay": entityarea.Replay},
 	"digraph": {"replay": digrapharea.Replay},
 	"dump":    {"child": dumparea.Child, "explore": dumparea.Explore},
+	"trav":    {"run": travarea.Run, "pipe": travarea.Pipe},
 	"reach":   {"replay": reacharea.Replay},
 	"idset":   {"replay": idsetarea.Replay, "conc": idsetarea.Conc, "abba": idsetarea.Abba, "toggle": idsetarea.Toggle},
 }
